@@ -34,8 +34,9 @@ TagForms == {
   [raw |-> "+2", has |-> TRUE, pt |-> PT("index", 2, "")],
   [raw |-> "300", has |-> TRUE, pt |-> PT("index", 300, "")] }
 DupIndexes == {0, 1, 5, 31, 32, 63, 64, 65, 127, 128, 300}
-Sup == {[k |-> "bool"], [k |-> "int", w |-> 32], [k |-> "int", w |-> 64], [k |-> "uint", w |-> 8], [k |-> "f32"], [k |-> "f64"],
-        [k |-> "string"], [k |-> "bytes"], [k |-> "time"]}
+Sup == {[k |-> "bool"], [k |-> "int", w |-> 16], [k |-> "int", w |-> 32], [k |-> "int", w |-> 64], [k |-> "uint", w |-> 8], [k |-> "f32"], [k |-> "f64"],
+        [k |-> "string"], [k |-> "bytes"], [k |-> "time"],
+        [k |-> "null", of |-> "float"], [k |-> "null", of |-> "string"], [k |-> "null", of |-> "int"]}
 Unsup == {[k |-> "unsup", g |-> x] : x \in {"complex64", "complex128", "array", "chan", "func", "iface", "uintptr", "unsafeptr"}}
 FieldKinds == Sup \cup Unsup
 Comparable(K) == K.k \in {"bool", "int", "uint", "f32", "f64", "string", "time"} \/ (K.k = "unsup" /\ K.g # "func")
@@ -80,7 +81,7 @@ Spec == Init /\ [][Next]_vars
 Done == st = "done"
 Def == IF c.pos = "top" THEN c.K
        ELSE IF c.pos = "dup" THEN St(<<OkFd("A", c.di, c.K), OkFd("Z", 9, IntT), OkFd("B", c.di, c.K2)>>)
-       ELSE St(<<Fd(c.exp.n, c.exp.x, c.tf, At(c.pos, c.K)), OkFd("Z", 9, IntT)>>)
+       ELSE St(<<Fd(c.exp.n, c.exp.x, c.tf, At(c.pos, c.K)), OkFd("Z", 9, [k |-> "uint", w |-> 8])>>)      \* a one-byte witness right behind the field: a codec touching more than its own bytes hits it
 Cls == Classify(Def)
 
 \* sanity of the classification itself
